@@ -12,13 +12,19 @@ text      non-empty; inside link text / image descriptions a text is one run of 
           none before a line end; two text inlines are never adjacent (the parser merges them).
 code      1..5 backticks, longer than every backtick run of the content; content printable ASCII,
           non-empty, not starting/ending with space or backtick; no backtick right before or
-          after the span; fewer than 3 backticks at the start of a line (would open a fence).
+          after the span; fewer than 3 backticks at the start of a line (would open a fence); no `]`
+          in a code span inside link text (at the start of a paragraph `[..]:` would be read as a
+          link reference definition, which does not respect code spans).
 emphasis  (also `~~` strikethrough, with `~` excluded next to every run)
           (`*` or `_`, single or double) the content starts and ends with a letter or digit of a
           text inline; the byte before the opening run is a line start, a space or ASCII
           punctuation other than `*`/`_`, and so is the byte after the closing run: openers
           cannot close, closers cannot open, runs never touch (no rule-of-three cases).
-links     no link or autolink inside link text; destination over `A-Za-z0-9/:.-_~?=#%+&@,`
+links     a reference-spelled link `[text][label]` has a label of 1..20 letters/digits equal to the
+          label of its definition up to letter case, and the first definition written for that
+          label (leading block, then trailing block, then the shadowed extras) carries exactly
+          this link's destination and title;
+          no link or autolink inside link text; destination over `A-Za-z0-9/:.-_~?=#%+&@,`
           (bare: non-empty; in `<..>` also spaces and empty); title over letters, digits,
           space and `'(),.!?<>:;-`, no space at its ends, written in double quotes.
 breaks    never first or last in their sequence, never in headings, not next to a space or
@@ -78,6 +84,15 @@ def maxTicks (cur best : Nat) : Bytes → Nat
 /-- A byte that may stand right outside an emphasis delimiter run. -/
 def okOutside (c : UInt8) : Bool := c == 0x0A || c == 0x20 || (isPunct c && c != 0x2A && c != 0x5F && c != 0x7E)
 
+/-- Reference labels: letters and digits (case variants allowed between use and definition). -/
+def labelOk (l : Bytes) : Bool := !l.isEmpty && l.length ≤ 20 && l.all isAsciiAlnum
+
+def lowerB (l : Bytes) : Bytes := l.map toLowerAscii
+
+/-- "First definition wins": the first written definition whose label matches case-insensitively. -/
+def resolve (all : List RefDef) (label : Bytes) : Option RefDef :=
+  all.find? fun d => lowerB d.label == lowerB label
+
 def Inl.firstB : Inl → UInt8
   | .text as => (atomsSrc as).headD 0
   | .code .. => 0x60
@@ -97,7 +112,8 @@ def Inl.lastB : Inl → UInt8
   | .emph us _ => if us then 0x5F else 0x2A
   | .strong us _ => if us then 0x5F else 0x2A
   | .strike _ => 0x7E
-  | .link .. => 0x29
+  | .link _ _ _ .inline _ => 0x29
+  | .link _ _ _ (.ref ..) _ => 0x5D
   | .image .. => 0x29
   | .autolink .. => 0x3E
   | .hard _ => 0x0A
@@ -142,7 +158,7 @@ def Inl.wf (inLink inBr breaks : Bool) (prev nxt : UInt8) (first last : Bool) (p
   | .code n s =>
     1 ≤ n && n ≤ 5 && !s.isEmpty && s.all (fun c => 0x20 ≤ c && c ≤ 0x7E) &&
     s.head? != some 0x20 && s.head? != some 0x60 && s.getLast? != some 0x20 && s.getLast? != some 0x60 &&
-    maxTicks 0 0 s < n && prev != 0x60 && nxt != 0x60 && (prev != 0x0A || n < 3)
+    maxTicks 0 0 s < n && prev != 0x60 && nxt != 0x60 && (prev != 0x0A || n < 3) && !(inBr && s.contains 0x5D)
   | .emph us cs =>
     let d : UInt8 := if us then 0x5F else 0x2A
     okOutside prev && okOutside nxt && cs.startsAlnum && cs.endsAlnum && cs.wf inLink inBr breaks d d true 0
@@ -151,7 +167,10 @@ def Inl.wf (inLink inBr breaks : Bool) (prev nxt : UInt8) (first last : Bool) (p
     okOutside prev && okOutside nxt && cs.startsAlnum && cs.endsAlnum && cs.wf inLink inBr breaks d d true 0
   | .strike cs =>
     okOutside prev && okOutside nxt && cs.startsAlnum && cs.endsAlnum && cs.wf inLink inBr breaks 0x7E 0x7E true 0
-  | .link url title angle cs =>
+  | .link url title angle sp cs =>
+    (match sp with
+     | .inline => true
+     | .ref label dl _ => labelOk label && labelOk dl && lowerB label == lowerB dl && (angle || !url.isEmpty)) &&
     !inLink && !cs.isNil && destOk url angle && titleOk title && cs.wf true true breaks 0x5B 0x5D true 0
   | .image url title angle cs =>
     !cs.isNil && destOk url angle && titleOk title && cs.wf inLink true breaks 0x5B 0x5D true 0
@@ -254,7 +273,18 @@ def Items.wf (m : Marker) : Items → Bool
   | .cons bs r => !bs.isNil && bs.wf m.tight (if m.ordered then 0 else m.bullet) 0 .none && r.wf m
 end
 
-def Doc.wf (d : Doc) : Bool := d.blocks.wf false 0 0 .none
+def RefDef.ok (d : RefDef) : Bool := labelOk d.label && destOk d.url d.angle && titleOk d.title
+
+/-- Every reference-spelled link resolves, under first-definition-wins over all the definitions
+    the writer emits, to its own destination and title. -/
+def Doc.refsOk (d : Doc) : Bool :=
+  d.shadow.all RefDef.ok &&
+  d.blocks.defs.all fun u =>
+    match resolve d.allDefs u.useLabel with
+    | some x => x.url == u.url && x.title == u.title
+    | none => false
+
+def Doc.wf (d : Doc) : Bool := d.blocks.wf false 0 0 .none && d.refsOk
 
 /-- The documents the class consists of. -/
 def Doc.ok (d : Doc) : Bool := d.wf && d.safe
